@@ -72,9 +72,12 @@ func NewWorld(rng *rand.Rand, pageLimit int, mainnet bool, pollMs uint, step fun
 			TokenByAddress[addrOf(id)] = id
 			tokMu.Unlock()
 		}
-		for _, mode := range []string{"http500", "two-results", "m1-failed", "m2-failed", "wrong-types", "long", "all-failed", "m0-no-return", "m1-no-return", "m2-no-return", "m0-two-returns"} {
+		for _, mode := range []string{"http500", "two-results", "m1-failed", "m2-failed", "wrong-types", "long", "all-failed", "m0-no-return", "m1-no-return", "m2-no-return", "m0-two-returns", "decimals-256", "decimals-2^64"} {
 			id := randHex(rng, 32)
 			s.Tokens[id] = &Token{Symbol: "BAD", Name: "Bad token", Decimals: 8, Mode: mode}
+			if mode == "decimals-256" {
+				s.Tokens[id].Decimals = 256 // does not fit the one byte an attestation has; an attestation naming this token says 0
+			}
 			w.BadToks = append(w.BadToks, id)
 			tokMu.Lock()
 			TokenByAddress[addrOf(id)] = id
